@@ -613,7 +613,22 @@ def rule_greedy_complete(ctx):
     r(ctx)
 
 
+def rule_char_eq_exact(ctx):
+    """The indices point at matching characters rest on `haystack_char == needle_char` being exact code point equality for every pair of character
+    types (shared with C01.char-eq-exact)."""
+    from props.c01 import rule_char_eq_exact as r
+    r(ctx)
+
+
+def rule_fold_lookup(ctx):
+    """A window accepted by `normalize` and re-walked by `char_class_and_normalize` yields one index per needle character only if both fold alike: to_lower_case / is_upper_case are exactly the fold-table lookup (shared with C16.dispatch)."""
+    from props.c16 import rule_dispatch as r
+    r(ctx)
+
+
 def rules(ctx):
+    ctx.run_rule("C02.fold-lookup", rule_fold_lookup)
+    ctx.run_rule("C02.char-eq-exact", rule_char_eq_exact)
     ctx.run_rule("C02.rewalk-normalized", rule_rewalk_normalized)
     ctx.run_rule("C02.backpointers", rule_backpointers)
     ctx.run_rule("C02.append-only", rule_append_only)
